@@ -547,11 +547,11 @@ impl<'r> Renderer<'r> {
             if pairs.len() == 1 && it.anchor.is_none() && it.tag.is_none() && self.r.chance(2, 3) {
                 let (k, v) = &pairs[0];
                 let null_plain = |n: &ANode| matches!(n.kind, AKind::Null) && n.anchor.is_none() && n.tag.is_none();
-                let key_ok = match &k.kind {
+                let key_ok = short_enough_for_limited_implicit_key(k) && (match &k.kind {
                     AKind::Scalar(_) | AKind::Alias(_) | AKind::Seq(_) | AKind::Map(_) => true,
                     AKind::Null => null_plain(k),
                     AKind::Block { .. } => false,
-                };
+                });
                 if key_ok {
                     self.note("flow-single-pair");
                     self.ev.push(SEv::MapStart { aid: 0, tag: None });
@@ -822,7 +822,7 @@ impl<'r> Renderer<'r> {
             AKind::Block { .. } => false,
         };
         let key_has_block_inside = fn_contains_block(k);
-        let implicit = implicit_ok && !key_has_block_inside && !self.r.chance(1, 7);
+        let implicit = implicit_ok && !key_has_block_inside && short_enough_for_limited_implicit_key(k) && !self.r.chance(1, 7);
         if implicit {
             if null_plain(k) {
                 // `: v`
@@ -987,6 +987,25 @@ impl<'r> Renderer<'r> {
 
 /// True when the node cannot be written in flow style: it contains a block scalar, or a flow
 /// sequence would need an entry that is a completely omitted node (`[a, , b]` is not YAML).
+/// Number of characters of scalar text inside a node (before any escaping).
+fn raw_len(n: &ANode) -> usize {
+    match &n.kind {
+        AKind::Scalar(t) => t.chars().count() + 2,
+        AKind::Block { lines, .. } => lines.iter().map(|l| l.len() + 1).sum(),
+        AKind::Seq(items) => 2 + items.iter().map(|i| raw_len(i) + 2).sum::<usize>(),
+        AKind::Map(pairs) => 2 + pairs.iter().map(|(k, v)| raw_len(k) + raw_len(v) + 4).sum::<usize>(),
+        AKind::Alias(a) => a.len() + 1,
+        AKind::Null => 0,
+    }
+}
+
+/// Implicit keys of block mappings and of single pairs in flow sequences are limited to 1024
+/// characters *as written*; escapes can expand a character tenfold, so only keys with little raw
+/// text are written in those forms (flow mapping keys have no such limit).
+fn short_enough_for_limited_implicit_key(n: &ANode) -> bool {
+    raw_len(n) <= 90
+}
+
 fn fn_contains_block(n: &ANode) -> bool {
     match &n.kind {
         AKind::Block { .. } => true,
@@ -1035,6 +1054,13 @@ impl<'a> TreeGen<'a> {
     }
 
     fn scalar_text(&mut self) -> String {
+        if self.r.chance(1, 150) {
+            // longer than the 1024-character limit of implicit keys: legal as a value, as an explicit
+            // key and as an implicit key of a flow mapping
+            let n = self.r.range(1030, 1300);
+            let c = self.r.pick(&['k', 'x', 'é']);
+            return std::iter::repeat(c).take(n).collect();
+        }
         if self.r.chance(1, 12) {
             // synthesized word
             let n = self.r.range(1, 24);
